@@ -48,10 +48,28 @@ theorem closed_import (h : trace w entries fuel = some s) (m name r : Nat) (d : 
   simp only [Served, hnd, hp] at h3
   exact ⟨h3.1, C11.done_of_sched w entries fuel s h _ h3.2⟩
 
+/-- the star re-export chosen for a name is one of the module's, and the name is found through it;
+none is chosen only when no star re-export of the module provides the name (or for `default`) -/
+theorem starProvider_spec (md : Mod) (n : Nat) :
+    (∀ x, starProvider w md n = some x → x ∈ md.stars ∧ resolves w x n = true ∧ n ≠ 0) ∧
+    (starProvider w md n = none → n ≠ 0 → ∀ x ∈ md.stars, resolves w x n = false) := by
+  unfold starProvider
+  constructor
+  · intro x hx
+    split at hx
+    · cases hx
+    · rename_i hn
+      exact ⟨List.mem_of_find?_eq_some hx, by simpa using List.find?_some hx, hn⟩
+  · intro hnone hn x hx
+    simp only [hn, if_false] at hnone
+    have := List.find?_eq_none.mp hnone x hx
+    simpa using this
+
 /-- **the exporting module's emitted counterpart still exports the name**: a module that has been
 asked for a name keeps whatever its source uses to export it — the declaration itself, the local
 export specifier (and what it names), the named re-export (and the next module is asked in turn),
-or, failing all that, every star re-export (each target being asked in turn) -/
+or, failing all that, the first star re-export through which the name is found (its target being
+asked in turn); when none provides it, every star re-export is kept -/
 theorem request_served (h : trace w entries fuel = some s) (m n : Nat) (hq : Task.reqName m n ∈ s.done) :
     m ∈ s.modules ∧
     (∀ d, ownExport (w.mod m) n = some d → findDecl (w.mod m) d.name = some d → (m, d.name) ∈ s.decls) ∧
@@ -59,8 +77,9 @@ theorem request_served (h : trace w entries fuel = some s) (m n : Nat) (hq : Tas
         (m, n) ∈ s.exportLocal ∧ Task.local m p.2 ∈ s.done) ∧
     (ownExport (w.mod m) n = none → findLocalExport (w.mod m) n = none → ∀ p, findFrom (w.mod m) n = some p →
         (m, n) ∈ s.exportFrom ∧ Task.reqName p.2.1 p.2.2 ∈ s.done) ∧
-    (ownExport (w.mod m) n = none → findLocalExport (w.mod m) n = none → findFrom (w.mod m) n = none → n ≠ 0 →
-        ∀ x ∈ (w.mod m).stars, (m, x) ∈ s.stars ∧ Task.reqName x n ∈ s.done) := by
+    (ownExport (w.mod m) n = none → findLocalExport (w.mod m) n = none → findFrom (w.mod m) n = none →
+        (∀ x, starProvider w (w.mod m) n = some x → (m, x) ∈ s.stars ∧ Task.reqName x n ∈ s.done) ∧
+        (starProvider w (w.mod m) n = none → ∀ x ∈ (w.mod m).stars, (m, x) ∈ s.stars)) := by
   have hs := C11.served_of_done w entries fuel s h _ hq
   have dn := C11.done_of_sched w entries fuel s h
   refine ⟨hs.1, ?_, ?_, ?_, ?_⟩
@@ -76,10 +95,16 @@ theorem request_served (h : trace w entries fuel = some s) (m n : Nat) (hq : Tas
     have := hs.2
     simp only [hd, hp, hq'] at this
     exact ⟨this.1, dn _ this.2⟩
-  · intro hd hp hq' hn x hx
+  · intro hd hp hq'
     have := hs.2
     simp only [hd, hp, hq'] at this
-    exact ⟨(this hn x hx).1, dn _ (this hn x hx).2⟩
+    constructor
+    · intro x hx
+      simp only [hx] at this
+      exact ⟨this.1, dn _ this.2⟩
+    · intro hx
+      simp only [hx] at this
+      exact this
 
 /-- a retained local export specifier still names something retained -/
 theorem local_served (h : trace w entries fuel = some s) (m l : Nat) (hq : Task.local m l ∈ s.done) (d : Decl)
